@@ -247,24 +247,25 @@ def mfOf (O : Ops) (M : Marks) (lv : Nat) (l : Level) : List Idx :=
         (fun f => (inter (O.support lv [f]) l.act).isEmpty)
 
 /-- activation loop of `HSpace.refine`, iteration `lv`, part acting on level `lv`:
-`actfun[lv] -= mf[lv]; deactfun[lv] |= mf[lv]` -/
-def actF (_lv : Nat) (a : Level × List Idx) : Level × List Idx :=
-  ({ a.1 with actfun := diff a.1.actfun a.2, deactfun := union a.1.deactfun a.2 }, a.2)
+`actfun[lv] -= mf[lv]; deactfun[lv] |= mf[lv]` (`mf` = the dict computed before the loop) -/
+def actF (mf : Nat → List Idx) (lv : Nat) (a : Level) : Level :=
+  { a with actfun := diff a.actfun (mf lv), deactfun := union a.deactfun (mf lv) }
 
 /-- activation loop, iteration `lv-1`, part acting on level `lv`: candidate functions are those
 supported in the new cells, not yet active, whose support lies in `active ∪ deactivated`. -/
-def actG (O : Ops) (M : Marks) (lv : Nat) (b : Level × List Idx) : Level × List Idx :=
-  let cand := diff (O.supportedIn lv (newCells O M lv)) b.1.actfun
-  let fine := union b.1.act b.1.deact
+def actG (O : Ops) (M : Marks) (lv : Nat) (b : Level) : Level :=
+  let cand := diff (O.supportedIn lv (newCells O M lv)) b.actfun
+  let fine := union b.act b.deact
   let newf := cand.filter (fun f => subset (O.support lv [f]) fine)
-  ({ b.1 with actfun := union b.1.actfun newf }, b.2)
+  { b with actfun := union b.actfun newf }
 
 /-- `HSpace.refine` after `_ensure_levels` and `_mark_recursive`:
-`hmesh.refine(marked)`, then all of `mf = _functions_to_deactivate(marked)`, then the loop. -/
+`hmesh.refine(marked)`, then all of `mf = _functions_to_deactivate(marked)` (on the refined
+mesh and the not yet updated `actfun`), then the activation loop. -/
 def refineCore (O : Ops) (M : Marks) (levels : List Level) : List Level :=
   let l1 := hmeshRefine O M levels
-  let l2 := mapFrom (fun lv l => (l, mfOf O M lv l)) 0 l1
-  (sweep (fun lv a b => (actF lv a, actG O M (lv + 1) b)) 0 l2).map (·.1)
+  let mf := fun lv => mfOf O M lv (l1.getD lv emptyLevel)
+  sweep (fun lv a b => (actF mf lv a, actG O M (lv + 1) b)) 0 l1
 
 /-- `cell_support_extension(l, cells, k)`, `k ≤ l` -/
 def cellSupportExtension (O : Ops) (l : Nat) (cells : List Idx) (k : Nat) : List Idx :=
